@@ -102,7 +102,9 @@ def nontrivial(op):
 
 ASSUME = [
     "16-bit and float32 colour conversions and rgb->cmyk (double scale factor): partial (float) -- the Lean model reproduces the IEEE operation sequence "
-    "(bit-exact correspondence); the theorems cover the 8-bit integer kernels; the Spec is judged on the real code's output",
+    "(bit-exact correspondence); the theorems cover the 8-bit and 16-bit integer kernels; the float32 luminance (rgb16 -> gray16, rgb32f -> gray32f) is proved RELATIVE TO FloatSpec "
+    "(Props/C09Float.lean, C09_float_*: monotone, black/white/gray exact for 16 bit, range, error < 1 unit; trusted: the target's binary32 arithmetic satisfies FloatSpec with eps = 2^-24, "
+    "no FMA; abstract model with the genuine binary32 instance evaluated by the Lean kernel on sampled lumax ops); everything else float is judged on the real code's output by the Spec",
     "colour spaces outside {gray, rgb, rgba, cmyk} and channel types outside {uint8_t, uint16_t, float32_t} are outside the claim; layouts bgr/bgra/argb/abgr are exercised for equal-depth conversions",
     "float32 source channels are drawn from [0,1]",
 ]
@@ -125,9 +127,37 @@ def expand_sweep(op, impl):
                 for t in ("rgb8", "gray8", "cmyk8"): out.append("cc rgba8 %s %d %d %d %d" % (t, r, g, b, a))
     return out
 
+def abstract_tie(ctx, ops, impl):
+    """tie of the ABSTRACT float luminance of Props/C09Float (Lemmas/C09Float: lumF, lum16; toF/fromF of C06) to the real code:
+    instantiated with the genuine IEEE rounding FloatSpec.binary32 and evaluated by the Lean kernel, it must return what
+    color_convert returned on a seeded sample of this run's rgb -> gray conversions of 16-bit / float32 channels (lumax ops)"""
+    r = ctx.rng
+    cand = [(o, obs) for o, obs in zip(ops, impl) if o.startswith("lumax ") and o.split()[1] in ("16", "32f") and o.split()[2] in ("16", "32f")]
+    claims = {"ℤ": [], "ℚ": []}
+    for _ in range(min(len(cand), 160 if ctx.thorough() else 48)):
+        o, obs = cand[r.below(len(cand))]
+        w = o.split(); sd, td, axis, n, step = w[1], w[2], int(w[3]), int(w[7]), int(w[8])
+        base = [int(w[4]), int(w[5]), int(w[6])]
+        try: vals = [int(x) for x in obs.split("|")[0].split()]
+        except ValueError: continue
+        if len(vals) != n: continue
+        for i in {0, n - 1, r.below(n), r.below(n)}:
+            px = list(base); px[axis] += i * step
+            if sd == "16": ch = ["(toF FloatSpec.binary32 65535 %d)" % c for c in px]
+            else: ch = [vlib.f32_to_rat(c) for c in px]
+            y = "lumF FloatSpec.binary32 %s %s %s" % tuple(ch)
+            tag = o + " @%d" % i
+            if sd == "16" and td == "16": claims["ℤ"].append(("lum16 FloatSpec.binary32 %d %d %d" % tuple(px), str(vals[i]), tag))
+            elif td == "16": claims["ℤ"].append(("fromF FloatSpec.binary32 65535 (%s)" % y, str(vals[i]), tag))
+            else: claims["ℚ"].append((y, vlib.f32_to_rat(vals[i]), tag))
+    for typ, cl in claims.items():
+        cl = list({c[0]: c for c in cl}.values())
+        vlib.kernel_tie(ctx, "C09Float-" + ("int" if typ == "ℤ" else "rat"), ["GilVerif.Props.C09Float"],
+                        ["GilVerif", "GilVerif.Lemmas.C06Float", "GilVerif.Lemmas.C09Float"], typ, cl)
+
 def run(ctx, ops=None):
     vlib.regen(ctx, C09_syms.NAMESPACE, C09_syms.SYMS)
-    obligations, discharged = vlib.standard_proof_steps(ctx)
+    obligations, discharged = vlib.standard_proof_steps(ctx, extra_props=["GilVerif.Props.C09Float"])
     bins = parcorr.compile_parallel(ctx, [dict(src_rel="harness/C09/main.cpp", name="C09_g%d" % g,
                                                defines=["C09_GROUP=%d" % g, "C09_NGROUPS=%d" % NGROUPS]) for g in range(NGROUPS)])
     samples, distinct, pixels = [], 0, 0
@@ -157,6 +187,7 @@ def run(ctx, ops=None):
             ops += o2; impl += i2; model += m2
             if not ctx.failures:
                 ctx.broken.append(("correspondence", sweeps[0]["op"], "sweep verdict %s but no single pixel of the plane fails the Spec" % sweeps[0]["clause"]))
+        if discharged == obligations: abstract_tie(ctx, ops, impl)
         distinct = len({o for o in ops if nontrivial(o)})
         pixels = sum(65536 if o.startswith("sweep") else (int(o.split()[7]) if o.startswith("lumax") else (256 - int(o.split()[1]) if o.startswith("cmykrow") else 1)) for o in ops)
         ctx.cov["pixels_judged"] = pixels
